@@ -171,15 +171,27 @@ from cdd.compound.openapi.gen_routes import gen_routes, upsert_routes
 d = os.path.dirname(sys.argv[1])
 model_path = os.path.join(d, "models.py"); routes_path = os.path.join(d, "routes.py")
 open(model_path, "w").write(job["models_src"])
-open(routes_path, "w").write("from bottle import Bottle, request, response\n\n%s = Bottle(catchall=False, autojson=True)\n\n" % job["app"])
+HEADER = "from bottle import Bottle, request, response\n\n%s = Bottle(catchall=False, autojson=True)\n\n" % job["app"]
+open(routes_path, "w").write(HEADER)
 res = {"steps": []}
 try:
-    for m in job["models"]:
+    routes_paths = [routes_path]
+    for i, m in enumerate(job["models"]):
         routes, pk = gen_routes(app=job["app"], model_path=model_path, model_name=m["name"], crud=m["crud"], route=m["route"])
-        upsert_routes(app=job["app"], routes=routes, routes_path=routes_path, route=m["route"], primary_key=pk)
+        rp = routes_path
+        if job.get("routes_file_per_model") and i > 0:
+            rp = os.path.join(d, "routes_%d.py" % i)
+            open(rp, "w").write(HEADER)
+            routes_paths.append(rp)
+        upsert_routes(app=job["app"], routes=routes, routes_path=rp, route=m["route"], primary_key=pk)
         res["steps"].append([m["name"], pk])
-    doc = openapi_bulk(app_name=job["app"], model_paths=[model_path], routes_paths=[routes_path])
+    doc = openapi_bulk(app_name=job["app"], model_paths=[model_path], routes_paths=routes_paths)
     res["doc"] = json.loads(json.dumps(doc))
+    # what the OpenAPI emitter writes for the same (name, route, primary key, crud) tuples -- the primary key is the generator's own
+    from cdd.compound.openapi.emit import openapi as emit_openapi
+    from cdd.compound.openapi.utils.emit_openapi_utils import NameModelRouteIdCrud
+    res["expected_paths"] = json.loads(json.dumps(emit_openapi(
+        [NameModelRouteIdCrud(name=m["name"], model={}, route=m["route"], id=m["pk"], crud=m["crud"]) for m in job["models"]])["paths"]))
 except BaseException as e:
     import traceback
     res["error"] = type(e).__name__ + ": " + str(e)[:200]
@@ -197,15 +209,22 @@ def gen_bulk_case(rng):
         cols = rng.sample(COLS, rng.randint(1, 5))
         explicit_pk = rng.random() < 0.7
         pk = rng.choice(["id", "email", "slug"])
-        doc = ["    %s record" % n, ""] + ["    :cvar %s: %s" % (pk, "identifier")] + ["    :cvar %s: %s" % (c[0], c[2]) for c in cols]
-        body = ['    __tablename__ = "%s"' % n.lower(), "",
-                '    %s = Column(String, doc="identifier", primary_key=True)' % pk]
-        body += ['    %s = Column(%s, doc="%s", nullable=True)' % (c[0], c[1], c[2]) for c in cols]
+        # the primary key column: documented or not, first or anywhere among the (documented) columns
+        pk_doc = rng.random() < 0.7
+        pk_at = 0 if rng.random() < 0.5 else rng.randint(0, len(cols))
+        doc_lines = ["    :cvar %s: %s" % (c[0], c[2]) for c in cols]
+        col_lines = ['    %s = Column(%s, doc="%s", nullable=True)' % (c[0], c[1], c[2]) for c in cols]
+        if pk_doc:
+            doc_lines.insert(pk_at, "    :cvar %s: %s" % (pk, "identifier"))
+        col_lines.insert(pk_at, '    %s = Column(String, %sprimary_key=True)' % (pk, 'doc="identifier", ' if pk_doc else ""))
+        doc = ["    %s record" % n, ""] + doc_lines
+        body = ['    __tablename__ = "%s"' % n.lower(), ""] + col_lines
         src += ["class %s(Base):" % n, '    """', "\n".join(doc) + '"""', ""] + body + ["", ""]
         prefix = rng.choice(["/api", "/v1"])
         models.append({"name": n, "crud": rng.choice(["CRD", "CR", "RD", "C", "R", "CD", "D"]), "route": "%s/%s" % (prefix, n.lower()),
-                       "pk": pk})
-    return {"app": rng.choice(["api", "rest_api"]), "models_src": "\n".join(src), "models": models}
+                       "pk": pk, "pk_documented": pk_doc, "first_column": pk if pk_at == 0 else cols[0][0]})
+    return {"app": rng.choice(["api", "rest_api"]), "models_src": "\n".join(src), "models": models,
+            "routes_file_per_model": len(models) > 1 and rng.random() < 0.5}
 
 
 def bulk_worker(arg):
@@ -272,7 +291,7 @@ def run(ctx):
         res, job = b["res"], b["job"]
         multiword = any(m["name"].replace("_tbl", "", 1).title() != m["name"] for m in job["models"])
         tag = "/multiword-name" if multiword else ""
-        many = "/several-models" if len(job["models"]) > 1 else ""
+        many = ("/several-models" + ("/one-routes-file-each" if job.get("routes_file_per_model") else "")) if len(job["models"]) > 1 else ""
         if "error" in res:
             ctx.item("C16/bulk/raises%s%s" % (tag, many), {"stage": "gen_routes -> upsert_routes -> openapi_bulk", "input": job,
                                                            "clause": "the generator failed", "detail": res["error"]})
@@ -289,7 +308,38 @@ def run(ctx):
             item_ops = sorted((["get"] if "R" in m["crud"] else []) + (["delete"] if "D" in m["crud"] else []))
             if item_ops:
                 exp["%s/{%s}" % (m["route"], m["pk"])] = item_ops
-        if ops(doc) != exp:
+        if res.get("expected_paths") is not None:
+            # every operation of the document is the one the emitter writes for the model the route was generated for (the name of
+            # the path parameter aside: that is the item-path clause below); which operations exist is the "operations" clause
+            import re as _re
+            norm = lambda pth: _re.sub(r"\{[^}]*\}", "{}", pth)
+            emitted = {norm(k): v for k, v in res["expected_paths"].items()}
+            diff = []
+            for pth, item in (doc.get("paths") or {}).items():
+                for k, v in (item or {}).items():
+                    e = (emitted.get(norm(pth)) or {}).get(k)
+                    if k != "parameters" and e is not None and e != v:
+                        diff.append({"path": pth, "key": k, "got": v, "emitter": e})
+            if diff:
+                ctx.item("C16/bulk/operation-differs-from-the-emitter%s%s" % (tag, many), {
+                    "stage": "gen_routes -> upsert_routes -> openapi_bulk", "input": job,
+                    "clause": "routes generated for a model, fed back to the OpenAPI generator, describe that same model",
+                    "detail": diff[:2]})
+        # the item path is keyed by the first column instead of the primary key (models whose primary key is not the first column):
+        # re-key the expectation for exactly the models where that happened, and name them by how their primary key is documented
+        exp_first, kinds = dict(exp), set()
+        for m in job["models"]:
+            fc = m.get("first_column", m["pk"])
+            good, alt = "%s/{%s}" % (m["route"], m["pk"]), "%s/{%s}" % (m["route"], fc)
+            if fc != m["pk"] and good in exp_first and good not in ops(doc) and alt in ops(doc):
+                exp_first[alt] = exp_first.pop(good)
+                kinds.add("documented" if m.get("pk_documented", True) else "undocumented")
+        if ops(doc) != exp and kinds and ops(doc) == exp_first:
+            ctx.item("C16/bulk/item-path-keyed-by-first-column-not-primary-key/%s-primary-key%s" % ("+".join(sorted(kinds)), tag),
+                     {"stage": "gen_routes -> upsert_routes -> openapi_bulk", "input": job,
+                      "clause": "Read->GET on the item, Delete->DELETE on the item",
+                      "detail": {"got": ops(doc), "expected": exp}})
+        elif ops(doc) != exp:
             ctx.item("C16/bulk/operations%s%s" % (tag, many), {"stage": "gen_routes -> upsert_routes -> openapi_bulk", "input": job,
                                                               "clause": "operations present are exactly those requested",
                                                               "detail": {"got": ops(doc), "expected": exp}})
